@@ -121,6 +121,8 @@ func init() {
 	// soymsg/id.go hash32 with its block loop (fuel: one iteration per 12 bytes of limit-start, stated generously);
 	// the hidden loop names of soyhtml (exec.go, funcs.go)
 	gtFamily("79-gotrans-loops-misc", []gtItem{
+		it("soymsg", "tagName"),
+		{dir: "soymsg", key: "genBasePlaceholderNameFromHtml", cfg: &gtCfg{abstract: []string{"toUpperUnderscore"}}},
 		{dir: "soymsg", key: "hash32", cfg: &gtCfg{fuel: map[int]string{1: "limit - start + 1"}}},
 		it("soyhtml", "scope.push"),
 		it("soyhtml", "scope.pop"),
